@@ -5,6 +5,7 @@
 
 mod common;
 mod env;
+mod kit;
 mod props;
 mod script;
 
@@ -14,6 +15,7 @@ fn main() {
     let args = Args::parse();
     common::install_quiet_panic_hook();
     std::fs::create_dir_all(args.root.join(".work")).ok();
+    env::sweep_work(&args.root);
     let code = props::dispatch(&args);
     std::process::exit(code);
 }
